@@ -30,10 +30,14 @@ for f in m['files_changed']:
 print(' '.join('-p '+c for c in sorted(cr)))")
 echo "demo path: $DEMO_PATH ; demo cmd: $DEMO_CMD ; crates: $CRATES" >> $LOG
 mkdir -p $(dirname $DEMO_PATH); cp $D/demo.rs $DEMO_PATH
+# a demonstration that lives inside a crate's test module tree needs its `mod` line: taken from the author's demo_cmd (echo '...' >> file)
+MODLINE=$(python3 -c "import json,re;c=json.load(open('$D/meta.json'))['demo_cmd'];m=re.search(r\"echo '([^']+)' >> (\S+)\",c);print((m.group(1)+'|'+m.group(2)) if m else '')")
+if [ -n "$MODLINE" ]; then MODFILE=${MODLINE#*|}; echo "${MODLINE%%|*}" >> $MODFILE; echo "mod line added to $MODFILE" >> $LOG; fi
 ( $DEMO_CMD ) >> $LOG 2>&1; WITHOUT=$?
 git apply $D/patch.diff || { echo "patch does not apply"; exit 2; }
 ( $DEMO_CMD ) >> $LOG 2>&1; WITH=$?
 rm -f $DEMO_PATH
+if [ -n "$MODLINE" ]; then sed -i '$ d' $MODFILE; fi
 ( cargo test --offline $CRATES ) >> $LOG 2>&1; TESTS=$?
 cd /; git -C /repo worktree remove --force $W >/dev/null 2>&1; rm -rf $W
 echo "$P-$K demo without patch exit=$WITHOUT (want 0); with patch exit=$WITH (want !=0); existing tests with patch exit=$TESTS (want 0)" | tee -a $LOG
